@@ -79,7 +79,11 @@ func (ir *ifdReader) DecodeIfd(r io.Reader, h meta.ExifHeader) (err error) {
 	ir.Exif.ImageType = h.ImageType
 	ir.exifLength = h.ExifLength
 	ir.firstIfdOffset = h.FirstIfdOffset
-	ir.po = h.FirstIfdOffset
+	// the caller has consumed the 8-byte TIFF header; the first directory may lie further on
+	ir.po = 8
+	if err = ir.discard(int(h.FirstIfdOffset) - int(ir.po)); err != nil {
+		return err
+	}
 	err = ir.readIfd(ifds.NewIFD(h.ByteOrder, ifds.IfdType(h.FirstIfd), 0, ir.tiffHeaderOffset, 0))
 	return err
 }
